@@ -210,7 +210,7 @@ def main(pid="C09"):
         rep.tlc("Acl(design) K=%s" % subst.get("K", "2"), r)
         if not r.ok:
             raise tlc.TLCError("design variant of Acl violates %s" % r.violated)
-        dev = tlc.expect_caught("Acl", "MC_Acl.cfg", {"DevNoneWhenListsEmpty": ["AsConfigured"]}, timeout=300)
+        dev = tlc.expect_caught("Acl", "MC_Acl.cfg", {"DevNoneWhenListsEmpty": ["AsConfigured"], "DevEmptyAllowIsAbsent": ["AsConfigured"]}, timeout=300)
         rep.set("deviation_selftests", [{"deviation": d, "caught_by": c} for d, c, _ in dev])
         if dev[0][1] is None:
             raise tlc.TLCError("self-test: DevNoneWhenListsEmpty not caught")
@@ -230,7 +230,7 @@ def main(pid="C09"):
         groups = list(by_pol.values())
         for gi, group in enumerate(groups):
             pol = group[0]["pol"]
-            grey = pol["allowSet"] and not pol["allow"]
+            grey = False        # ("allow_list = []" was not judged until the third hunt: a configured list that is empty allows nobody)
             offs4 = [0, 32 - k, rnd.randint(1, 32 - k - 1)]
             offs6 = [0, 128 - k, rnd.randint(1, 128 - k - 1), rnd.randint(65, 128 - k - 1)]
             for j in range(3 if thorough else 2):
@@ -303,7 +303,7 @@ def main(pid="C09"):
                 return {"fam": fam, "base": base, "len": ln}
             allow_set = rnd.random() < 0.6
             deny_set = rnd.random() < 0.6
-            allow = [rnet() for _ in range(rnd.randint(1, 4))] if allow_set else []
+            allow = [rnet() for _ in range(rnd.randint(0 if rnd.random() < 0.2 else 1, 4))] if allow_set else []
             deny = [rnet() for _ in range(rnd.randint(1, 4))] if deny_set else []
             default = rnd.random() < 0.5
             enabled = rnd.random() < 0.9
@@ -443,7 +443,7 @@ def main(pid="C09"):
                                   "%s_list = %r in the configuration file cannot be interpreted (entry %r), yet the server would start with %s" % (
                                       which, lst, entry, started), None)
         rep.set("rule", "TLC-enumerated (policy, address) cases x embeddings into real IPv4/IPv6 at 2-3 bit offsets; "
-                "distinct = distinct abstract (policy, address) pairs; grey (allow_list = []) cases are run but not judged")
+                "distinct = distinct abstract (policy, address) pairs")
         rep.set("exhaustive", not thorough or len(cases) == len([s for s in states if s["out"] != "pending"]))
         rep.assume("the chain start_server assembles uses get_access_control_config() unchanged (cross-checked through the real start_server in the thorough tier)")
         if thorough:
@@ -464,7 +464,7 @@ def _admit(pol, addr, k):
         return n["fam"] == a["fam"] and (a["bits"] >> (k - n["len"])) == (n["base"] >> (k - n["len"]))
     if any(contains(n, addr) for n in pol["deny"]):
         return False
-    if pol["allow"]:
+    if pol["allowSet"]:
         return any(contains(n, addr) for n in pol["allow"])
     return pol["default"]
 
